@@ -25,22 +25,47 @@ StageAccepted(s) ==
     [] OTHER -> TRUE
 PipeAccepted(pipe) == \A k \in DOMAIN pipe : StageAccepted(pipe[k])
 
+(* The data matter too: FlateDecode with a predictor works on whole rows, so the bytes   *)
+(* that reach such a stage's encoder must be a whole number of rows (lens[k] = bytes that *)
+(* reached stage k, -1 = the chain stopped before it; such a stage decides nothing).      *)
+PredStage(s) == s.f = "Fl" /\ DefPred(s.pred) >= 2
+StageRowSize(s) == RowSize(DefColors(s.colors), DefBpc(s.bpc), DefCols(s.cols))
+DataAccepted(pipe, lens) ==
+  \A k \in DOMAIN pipe : (PredStage(pipe[k]) /\ lens[k] >= 0) => lens[k] % StageRowSize(pipe[k]) = 0
+
 Verdict15(r) ==
-  LET acc == PipeAccepted(r.pipe)
+  LET n == Len(r.pipe)
+      accP == PipeAccepted(r.pipe)                                             \* the parameters are accepted
+      acc == accP /\ DataAccepted(r.pipe, r.inLens)                            \* ... and the original content is encodable
+      accM == acc /\ DataAccepted(r.pipe, r.modInLens)                        \* ... and so is the edited content
       rt == \* round trip, filter level: by value where the bytes are given, else the recorded equality
             /\ r.encOk /\ r.decOk /\ r.eq
             /\ (r.small => r.dec = r.orig)
       sd == /\ r.sdEncOk /\ r.sdRawEq /\ r.sdLenOk
             /\ r.sdDecOk /\ r.sdEq
-            \* the stream object read back (Raw present) is decoded, edited (r.edit), re-encoded: the new Raw is what a
-            \* fresh object with the edited content encodes to, Length fits, and it decodes to the edited content
-            /\ r.sdModOk /\ r.sdModEq /\ r.sdModFresh /\ r.sdModLen
-            /\ (r.small => (r.mod = ApplyEdit(r.edit, r.orig) /\ r.modDec = r.mod))
-  IN  If(acc => rt, "roundtrip-filter")
+      \* the stream object read back (Raw present) is decoded, edited (r.edit), re-encoded: the new Raw is the chain's
+      \* encoding of the edited content, Length fits, and it decodes to the edited content
+      sdM == /\ r.sdModOk /\ r.sdModEq /\ r.sdModFresh /\ r.sdModLen
+             /\ (r.small => r.modDec = r.mod)
+  IN  If(/\ Len(r.inLens) = n /\ Len(r.modInLens) = n /\ r.inLens[n] = r.n
+         /\ (r.small => (Len(r.orig) = r.n /\ r.mod = ApplyEdit(r.edit, r.orig) /\ r.modInLens[n] = Len(r.mod))), "record-inconsistent")
+      \o If(acc => rt, "roundtrip-filter")
       \o If(acc => sd, "roundtrip-streamdict")
-      \o If(acc => r.file \in {"ok", "skip"}, "roundtrip-file")
-      \* a pipeline pdfcpu does not accept must fail, never return different bytes
-      \o If(~acc /\ r.encOk /\ r.decOk => r.eq, "silent-wrong-data")
+      \o If(accM => sdM, "roundtrip-streamdict-edit")
+      \* file level: the original reads back; an edit is either rejected at re-encoding (only if not accepted) or survives write + re-read
+      \o If(/\ (acc => r.fstage \in {"ok", "skip", "reencode"})
+            /\ (accM => r.fstage \in {"ok", "skip"}), "roundtrip-file")
+      \* whatever an encoder returns without error for accepted parameters is decodable (content that is not a whole
+      \* number of rows must be refused by the encoder, not turned into an undecodable stream)
+      \o If(accP => (/\ (r.encOk => r.decOk)
+                      /\ (r.sdEncOk => r.sdDecOk)
+                      /\ (r.sdModEncOk => r.sdModOk)
+                      /\ r.fstage \notin {"decode1", "decode2"}), "encoded-but-undecodable")
+      \* never other bytes, accepted or not
+      \o If(/\ (r.encOk /\ r.decOk) => r.eq
+            /\ (r.sdEncOk /\ r.sdDecOk) => r.sdEq
+            /\ (r.sdModOk => r.sdModEq)
+            /\ r.fstage \notin {"differs1", "differs2"}, "silent-wrong-data")
       \* every RunLength/ASCIIHex/ASCII85 stage output is a correct encoding of its input (reference decoders)
       \o If(\A k \in DOMAIN r.obs : EncodedBy(r.obs[k].f, r.obs[k].inp, r.obs[k].out), "encoder-vs-reference")
       \* the whole pipeline decoded by the reference decoders alone
@@ -75,14 +100,27 @@ Verdict(r) == CASE Prop = "C15" -> Verdict15(r)
                 [] Prop = "C16" -> Verdict16(r)
                 [] Prop = "C17" -> Verdict17(r)
 
-(* informational: bounded decoding at the filter.Filter interface that returns more than *)
-(* min(n, D) bytes (allowed by that interface, trimmed by StreamDict)                      *)
-Note(r) == Prop = "C16" /\ r.mode = "bounded" /\ r.api = "F" /\ r.kind = "ok" /\ r.len > Min2(r.arg, r.D)
+(* informational tags (not verdicts).  C16: bounded decoding at the filter.Filter interface *)
+(* that returns more than min(n, D) bytes (allowed there, trimmed by StreamDict).  C15: for  *)
+(* pipelines with a Flate predictor stage, which acceptance branch the record exercised.     *)
+HasPredStage(pipe) == \E k \in DOMAIN pipe : PredStage(pipe[k]) /\ pipe[k].f = "Fl"
+Note(r) ==
+  IF Prop = "C16"
+  THEN (IF r.mode = "bounded" /\ r.api = "F" /\ r.kind = "ok" /\ r.len > Min2(r.arg, r.D) THEN <<"overshoot">> ELSE <<>>)
+  ELSE IF Prop = "C15" /\ HasPredStage(r.pipe) /\ PipeAccepted(r.pipe)
+  THEN LET acc == DataAccepted(r.pipe, r.inLens)
+           accM == acc /\ DataAccepted(r.pipe, r.modInLens)
+           inner == \E k \in 1..(Len(r.pipe) - 1) : PredStage(r.pipe[k])
+       IN <<IF acc THEN "pred-whole-rows" ELSE "pred-partial-rows">>
+          \o (IF acc THEN <<IF accM THEN "edit-whole-rows" ELSE "edit-partial-rows">> ELSE <<>>)
+          \o (IF acc /\ inner THEN <<"pred-inner-stage-accepted">> ELSE <<>>)
+  ELSE <<>>
 
 RecordOK == LET r == Trace[l]
                 v == Verdict(r)
+                nt == Note(r)
             IN /\ v = <<>> \/ PrintT(<<"BAD", ToJson([i |-> l, id |-> r.id, why |-> v])>>)
-               /\ ~Note(r) \/ PrintT(<<"NOTE", ToJson([i |-> l, id |-> r.id])>>)
+               /\ nt = <<>> \/ PrintT(<<"NOTE", ToJson([i |-> l, id |-> r.id, tags |-> nt])>>)
 (* every record was judged *)
 TraceAccepted == TLCGet("stats").distinct = Len(Trace)
 =============================================================================
